@@ -59,13 +59,16 @@ type Exec struct {
 	usedExt       map[string]bool
 	usedContracts map[string]bool
 	inSpecFailure bool
-	iterObjBase   int // first object id of the current loop iteration (iterfresh)
-	urlOrigin     map[int]Term // parsed *url.URL object -> the text it was parsed from
+	iterObjBase   int               // first object id of the current loop iteration (iterfresh)
+	urlOrigin     map[int]Term      // parsed *url.URL object -> the text it was parsed from
 	sprintfFmt    map[string]string // result term of fmt.Sprintf -> its format literal
-	iterBase      int // recorded calls before the current loop iteration (for itercalls)
+	iterBase      int               // recorded calls before the current loop iteration (for itercalls)
 	inlined       map[string]bool
 	forceContract map[string]bool
 	notes         map[string]bool
+	frameCounter  int
+	cronExprs     map[string]Term     // schedule id -> the expression it was parsed from
+	dynTests      map[string][]string // opaque interface value id -> concrete types tested on it (mutually exclusive)
 	structCodecs  map[string]structCodec
 	callCounter   int
 	loopCounter   int
@@ -209,6 +212,9 @@ func (x *Exec) fork(st *State, cond Term, label string) (tState, fState *State) 
 	fOK := x.feasible(st, Not(cond))
 	switch {
 	case tOK && fOK:
+		if os.Getenv("GOVC_DEBUG_FORKS") != "" {
+			fmt.Fprintln(os.Stderr, "fork:", label)
+		}
 		f := st.clone()
 		f.assume(Not(cond))
 		f.trace = append(f.trace, "!"+label)
